@@ -341,8 +341,9 @@ class IpModel:
         """Widths 32/128, no overriding of the mapping functions, renderer family matches width."""
         core = {"anonymize", "_anonymize_bits", "deanonymize", "_deanonymize_bits", "dump_to_file", "_ip_to_str"}
         for c in self.p.subclasses(self.base):
-            over = core & set(c.methods)
-            rep.ob(cl + ".no-override", c.name, not over, "subclass overrides mapping functions: %s" % sorted(over), "%s:%d" % (c.module.relpath, c.node.lineno))
+            # through the whole method resolution order: a mix-in listed before the base wins over the base as well
+            over = sorted(n for n in core if c.find_method(n) is not self.base.methods.get(n))
+            rep.ob(cl + ".no-override", c.name, not over, "for %s the mapping functions %s resolve to %s, not to %s's own" % (c.name, over, [getattr(c.find_method(n), "qualname", None) for n in over], self.base.name), "%s:%d" % (c.module.relpath, c.node.lineno))
         for c, width, fam in ((self.v4, 32, "ipaddress.IPv4Address"), (self.v6, 128, "ipaddress.IPv6Address")):
             init = c.methods.get("__init__")
             if init is None:
